@@ -683,9 +683,9 @@ Definition spends (set : list tx) (c p : tx) : Prop :=
 
 (** The spend relation restricted to the set is acyclic: some rank strictly
     decreases from a transaction to each member it spends from.  (Equivalent
-    to the absence of a cycle, see [no_cycle_of_acyclic] / the example in
-    Properties/C14.v; real transaction ids always satisfy it because an id
-    commits to the ids of the inputs.) *)
+    to the absence of a cycle: [no_cycle_of_acyclic], [acyclic_of_no_cycle]
+    below.  Real transaction ids always satisfy it because an id commits to
+    the ids of the inputs.) *)
 Definition acyclic (set : list tx) : Prop :=
   exists rank : tx -> nat, forall c p, spends set c p -> (rank p < rank c)%nat.
 
